@@ -188,9 +188,22 @@ func hasNull(v interface{}) bool {
 type c13Rev struct {
 	config   map[string]interface{}
 	defaults map[string]interface{}
-	// baked is what the templates see if "the defaults in force" are implemented by storing the previous revision's
-	// fully coalesced values as chart defaults (used only to name that root cause in a signature, never as the oracle)
-	baked map[string]interface{}
+	// Two models of Helm's mechanism, used only to NAME a root cause in a signature, never as the oracle:
+	// baked / stored: "the defaults in force" are implemented by storing the previous revision's fully coalesced values as
+	// the new chart's parent defaults (stored = the parent chart's values as recorded with the revision), and the chart
+	// recorded with a revision does not contain its subcharts (they are not serialised), so a subchart that is not listed
+	// under dependencies contributes nothing to what is rebuilt from the record;
+	// bakedV / storedV: the same, supposing the recorded chart did contain its subcharts.
+	baked, stored   map[string]interface{}
+	bakedV, storedV map[string]interface{}
+	sub             map[string]interface{} // the subchart defaults of this revision's chart
+}
+
+func c13WithSub(vals, sub map[string]interface{}) map[string]interface{} {
+	if sub == nil {
+		return vals
+	}
+	return refCoalesce(vals, map[string]interface{}{"sub": deepCopyVal(sub)})
 }
 
 type c13Judge struct {
@@ -224,7 +237,11 @@ func (j *c13Judge) run(op *world.Op) (cut bool, mode string, overlap bool) {
 	if op.Kind == "upgrade" {
 		mode = c13Mode(op)
 	}
-	line := fmt.Sprintf("%s values=%s defaults=%s sub-defaults=%s fault=%s => err=%v %s", op.Kind+"["+mode+"]", jsonOf(op.Values), jsonOf(op.Chart.Defaults), jsonOf(op.Chart.SubDefaults), op.Fault, res.Err != nil, world.HistString(res.Post))
+	subShape := "sub-defaults"
+	if op.Chart.SubUndeclared {
+		subShape = "undeclared-sub-defaults"
+	}
+	line := fmt.Sprintf("%s values=%s defaults=%s "+subShape+"=%s fault=%s => err=%v %s", op.Kind+"["+mode+"]", jsonOf(op.Values), jsonOf(op.Chart.Defaults), jsonOf(op.Chart.SubDefaults), op.Fault, res.Err != nil, world.HistString(res.Post))
 	if op.Kind == "rollback" {
 		line = fmt.Sprintf("rollback to=%d => err=%v %s", op.Target, res.Err != nil, world.HistString(res.Post))
 	}
@@ -269,11 +286,6 @@ func (j *c13Judge) run(op *world.Op) (cut bool, mode string, overlap bool) {
 			want = c13Rev{config: newVals, defaults: c13Defaults(op.Chart)}
 		case "reuse-values":
 			want = c13Rev{config: refMerge(newVals, base.config), defaults: base.defaults}
-			want.baked = refCoalesce(want.config, base.baked)
-			if op.Chart.SubDefaults != nil {
-				// ... and the new version's subchart defaults still shine through below the subchart's key
-				want.baked = refCoalesce(want.baked, map[string]interface{}{"sub": deepCopyVal(op.Chart.SubDefaults)})
-			}
 		case "reset-then-reuse-values":
 			want = c13Rev{config: refMerge(newVals, base.config), defaults: c13Defaults(op.Chart)}
 		default:
@@ -302,8 +314,21 @@ func (j *c13Judge) run(op *world.Op) (cut bool, mode string, overlap bool) {
 		}
 		want = tgt
 	}
-	if want.baked == nil {
-		want.baked = refCoalesce(want.config, want.defaults)
+	if op.Kind != "rollback" {
+		// the mechanism models (see c13Rev)
+		chartVals, chartValsV := op.Chart.Defaults, op.Chart.Defaults
+		if mode == "reuse-values" && base != nil {
+			chartVals = refCoalesce(base.config, base.stored)
+			chartValsV = refCoalesce(base.config, c13WithSub(base.storedV, base.sub))
+		}
+		want.sub = op.Chart.SubDefaults
+		want.stored, want.storedV = chartVals, chartValsV
+		if !op.Chart.SubUndeclared {
+			// a listed dependency's defaults are folded into the parent's values when dependencies are processed
+			want.stored, want.storedV = c13WithSub(chartVals, want.sub), c13WithSub(chartValsV, want.sub)
+		}
+		want.baked = refCoalesce(want.config, c13WithSub(chartVals, want.sub))
+		want.bakedV = refCoalesce(want.config, c13WithSub(chartValsV, want.sub))
 	}
 	j.ledger[rev.Version] = want
 	ctx := op.Kind + "/" + mode
@@ -328,10 +353,13 @@ func (j *c13Judge) run(op *world.Op) (cut bool, mode string, overlap bool) {
 		}
 		exp := refCoalesce(want.config, want.defaults)
 		if ok, d := sameLeaves(seen, exp); !ok {
-			if same, _ := sameLeaves(seen, want.baked); same && mode == "reuse-values" {
+			if same, _ := sameLeaves(seen, want.bakedV); same && mode == "reuse-values" {
 				return j.fail("C13:rendered-values-differ/upgrade/reuse-values/explained-by-effective-values-baked-into-chart-defaults", fmt.Sprintf("revision %d templates saw %s, expected %s = user values %s over defaults in force %s (%s)", rev.Version, raw, jsonOf(exp), jsonOf(want.config), jsonOf(want.defaults), d)), mode, overlap
 			}
-			return j.fail("C13:rendered-values-differ/"+ctx+nullCtx, fmt.Sprintf("revision %d templates saw %s, expected %s = user values %s over defaults in force %s (%s) [baked model: %s]", rev.Version, raw, jsonOf(exp), jsonOf(want.config), jsonOf(want.defaults), d, jsonOf(want.baked))), mode, overlap
+			if same, _ := sameLeaves(seen, want.baked); same && mode == "reuse-values" && j.w.Backend.Kind != "memory-live" {
+				return j.fail("C13:rendered-values-differ/upgrade/reuse-values/explained-by-subcharts-missing-from-the-recorded-chart", fmt.Sprintf("revision %d templates saw %s, expected %s = user values %s over defaults in force %s (%s)", rev.Version, raw, jsonOf(exp), jsonOf(want.config), jsonOf(want.defaults), d)), mode, overlap
+			}
+			return j.fail("C13:rendered-values-differ/"+ctx+nullCtx, fmt.Sprintf("revision %d templates saw %s, expected %s = user values %s over defaults in force %s (%s) [mechanism models: %s | %s]", rev.Version, raw, jsonOf(exp), jsonOf(want.config), jsonOf(want.defaults), d, jsonOf(want.baked), jsonOf(want.bakedV))), mode, overlap
 		}
 	}
 	return false, mode, overlap
@@ -350,6 +378,7 @@ func c13RunCase(tb vt.TB, backend string, ops []*world.Op) {
 // c13PrevSub is the subchart default tree of the chart version generated last in the current case (two versions in
 // three ship the subchart unchanged; a changed one under --reuse-values mostly lands on a recorded finding).
 var c13PrevSub map[string]interface{}
+var c13SubUndeclared bool
 
 func c13Chart(t *rapid.T, ver int) world.ChartSpec {
 	cs := world.ChartSpec{Version: ver, ValuesProbe: true, Resources: []world.Res{{Kind: "ConfigMap", Name: "a", Variant: ver % 3}}, Defaults: c13GenTree(t, 1, "def")}
@@ -366,6 +395,9 @@ func c13Chart(t *rapid.T, ver int) world.ChartSpec {
 		cs.SubDefaults = deepCopyVal(c13PrevSub).(map[string]interface{})
 	}
 	c13PrevSub = cs.SubDefaults
+	// the subchart is listed under dependencies in Chart.yaml, or merely lies in charts/
+	// (one shape per case: a changed subchart under --reuse-values lands on a recorded finding when it is unlisted)
+	cs.SubUndeclared = c13SubUndeclared
 	return cs
 }
 
@@ -380,7 +412,11 @@ func c13Defaults(cs world.ChartSpec) map[string]interface{} {
 
 func c13Prop(t *rapid.T) {
 	c13PrevSub = nil
-	w := world.New("secret") // values survive a JSON round trip, as in production
+	c13SubUndeclared = rapid.IntRange(0, 3).Draw(t, "subchartNotListedUnderDependencies") == 0
+	// values survive a JSON round trip, as in production; one case in four runs on Helm's memory driver as it is, which
+	// keeps live chart objects (subcharts included) instead of a serialised record
+	backend := rapid.SampledFrom([]string{"secret", "secret", "secret", "memory-live"}).Draw(t, "backend")
+	w := world.New(backend)
 	j := &c13Judge{t: t, w: w, ledger: map[int]c13Rev{}}
 	maxOps := 6
 	if vt.Thorough() {
